@@ -50,7 +50,7 @@ def value : P Value := do
   match t with
   | "S" => do let b ← bytesTok; pure (.str b)
   | "L" => do let n ← nat; let l ← repeatP n bytesTok; pure (.list l)
-  | "T" => do let n ← nat; let l ← repeatP n strKey; pure (.set (NSet.ofList l))
+  | "T" => do let n ← nat; let l ← repeatP n strKey; pure (.set (NMap.ofList (l.map (fun c => (c, ())))))
   | "H" => do
     let n ← nat
     let l ← repeatP n (do let f ← strKey; let v ← bytesTok; pure (f, v))
@@ -64,7 +64,7 @@ def value : P Value := do
 def showValue : Value → String
   | .str b => s!"S {hexOfBytes b}"
   | .list l => " ".intercalate (["L", toString l.length] ++ l.map hexOfBytes)
-  | .set m => " ".intercalate (["T", toString m.length] ++ m.map showKey)
+  | .set m => " ".intercalate (["T", toString m.length] ++ m.map (fun p => showKey p.1))
   | .hash h => " ".intercalate (["H", toString h.length] ++ h.map (fun p => s!"{showKey p.1} {hexOfBytes p.2}"))
   | .zset z => " ".intercalate (["Z", toString z.length] ++ z.map (fun p => s!"{hexOfBytes p.1} {showScore p.2}"))
 
@@ -93,6 +93,7 @@ def showErr : Err → String
   | .badFlags => "badflags"
   | .noSuchKey => "nosuchkey"
   | .indexRange => "indexrange"
+  | .hashNotInt => "hashnotint"
   | .tooLong => "toolong"
   | .syntax => "syntax"
   | .notFloat => "notfloat"
@@ -237,6 +238,21 @@ def cmd : P Cmd := do
   | "LSET" => do let k ← strKey; let i ← int; let v ← bytesTok; pure (.lset k i v)
   | "LTRIM" => do let k ← strKey; let a ← int; let b ← int; pure (.ltrim k a b)
   | "RPOPLPUSH" => do let a ← strKey; let b ← strKey; pure (.rpoplpush a b)
+  | "SADD" => do let k ← strKey; let ms ← keyList; pure (.sadd k ms)
+  | "SREM" => do let k ← strKey; let ms ← keyList; pure (.srem k ms)
+  | "SMEMBERS" => do let k ← strKey; pure (.smembers k)
+  | "SISMEMBER" => do let k ← strKey; let m ← strKey; pure (.sismember k m)
+  | "SCARD" => do let k ← strKey; pure (.scard k)
+  | "SPOP" => do let k ← strKey; let n ← optNat; let ch ← keyList; pure (.spop k n ch)
+  | "HSET" => do let k ← strKey; let fvs ← kvList; pure (.hset k fvs)
+  | "HGET" => do let k ← strKey; let f ← strKey; pure (.hget k f)
+  | "HDEL" => do let k ← strKey; let fs ← keyList; pure (.hdel k fs)
+  | "HGETALL" => do let k ← strKey; pure (.hgetall k)
+  | "HKEYS" => do let k ← strKey; pure (.hkeys k)
+  | "HVALS" => do let k ← strKey; pure (.hvals k)
+  | "HLEN" => do let k ← strKey; pure (.hlen k)
+  | "HEXISTS" => do let k ← strKey; let f ← strKey; pure (.hexists k f)
+  | "HINCRBY" => do let k ← strKey; let f ← strKey; let d ← int; pure (.hincrby k f d)
   | "LMOVE" => do let a ← strKey; let b ← strKey; let f ← side; let t ← side; pure (.lmove a b f t)
   | _ => failure
 
@@ -267,6 +283,24 @@ def line : P Line := do
 
 def b01 (b : Bool) : String := if b then "1" else "0"
 
+/-- canonical order of an unordered multi-bulk reply: by (length, bytes) = by key code -/
+def elemCode : Elem → Nat
+  | .bulk b => keyCode b
+  | .key c => c
+  | _ => 0
+
+def insertElem (e : Elem) : List Elem → List Elem
+  | [] => [e]
+  | x :: xs => if elemCode e ≤ elemCode x then e :: x :: xs else x :: insertElem e xs
+
+def sortElems (l : List Elem) : List Elem := l.foldr insertElem []
+
+/-- replies whose order Redis leaves unspecified are compared sorted (HVALS: values sorted) -/
+def canonReply (c : Cmd) (r : Reply) : Reply :=
+  match c, r with
+  | .hvals _, .arr l => .arr (sortElems l)
+  | _, r => r
+
 /-- state-threading step of the driver -/
 def stepLine (st : State) (l : String) : State × String :=
   match runP line l with
@@ -276,6 +310,6 @@ def stepLine (st : State) (l : String) : State × String :=
   | some (.adopt _ s) => (s, "adopt")
   | some (.op now c s) =>
     let r := Redis.step st now c
-    (s, s!"{showReply r.2} | {showDump r.1 now} | ro={b01 (isReadOnly c)}")
+    (s, s!"{showReply (canonReply c r.2)} | {showDump r.1 now} | ro={b01 (isReadOnly c)}")
 
 end RedisVerif.Driver.C01
